@@ -462,18 +462,25 @@ def rule_predictor(ctx, f):
     # the output row out of the buffers allocated here
     bfl = Flow(b)
     PT = ("index", "index_mut", "deref", "deref_mut", "as_slice", "as_mut_slice", "split_at_mut", "split_at", "branch", "unwrap", "into_result")
+    def buf_roots(l):
+        """calls that produce a byte buffer in the provenance of l (sizes and offsets that flow in through the index expressions are not roots)"""
+        out = set()
+        for x in bfl.origins(l, passthrough=PT) if l is not None else []:
+            if x[0] == "call" and last_seg(x[1]) not in PT and x[3].get("dest"):
+                ty = b["locals"][x[3]["dest"][0]]["s"]
+                if "u8" in ty and "usize" not in ty.replace("u8", ""):
+                    out.add((x[1], x[2]))
+        return out
     tag_roots = set()
     for bi, t in F.calls(b):
         if last_seg(F.callee_name(t)) == "from_u8":
-            l = F.op_local(t["args"][0])
-            tag_roots |= {(x[1], x[2]) for x in bfl.origins(l, passthrough=PT) if x[0] == "call" and last_seg(x[1]) not in PT + ("checked_mul", "checked_add")} if l is not None else set()
+            tag_roots |= buf_roots(F.op_local(t["args"][0]))
     for bi, t in F.calls(b):
         if last_seg(F.callee_name(t)) != "unfilter" or len(t["args"]) < 5:
             continue
         roots = []
         for k in (2, 3, 4):
-            l = F.op_local(t["args"][k])
-            roots.append({(x[1], x[2]) for x in bfl.origins(l, passthrough=PT) if x[0] == "call" and last_seg(x[1]) not in PT + ("checked_mul", "checked_add")} if l is not None else set())
+            roots.append(buf_roots(F.op_local(t["args"][k])))
         prev_r, inp_r, out_r = roots
         ok = bool(tag_roots) and bool(inp_r & tag_roots) and not (prev_r & tag_roots) and not (out_r & tag_roots) and not (inp_r & out_r)
         ctx.check(ok, "C05-TABLE-pred", "enc::flate_decode#row-buffers", "the row filter is not given (previous output row, encoded row, output row): the encoded-row argument "
